@@ -9,7 +9,12 @@ What a model can say about the random generators (scheme C of DESIGN.md):
    (`seed=None`) pulls a fresh seed from the operating system's entropy pool; neither reads nor writes NumPy's
    *global* generator (`np.random.seed`, `np.random.rand`).  The state machine below has the global generator state and
    the entropy pool as opaque tokens.  The PCG64 bit stream itself is *not* modelled: it is the parameter `draws`.
-2. **Post-processing** that is index manipulation: the Schmidt-rank construction of `random_state_vector`
+   What each function draws (constructions, methods, shapes, in program order, per option combination and `dim` form) is
+   `Toq/Model/RandDraws.lean` (`trace`), which also refines `Env.draws` (`envOfPrim`).
+2. **Post-processing** that is matrix algebra on the draws / LAPACK factors, executable on exact numbers:
+   `Toq/Model/RandPost.lean` (density, Bures factor as written, `Uᴴ G` relation of `random_unitary`, `random_psd_operator`,
+   `random_povm` cores, PGM elements, `measure` with its branch logic).
+3. **Post-processing** that is index manipulation: the Schmidt-rank construction of `random_state_vector`
    (`kron`, `swap`, contraction with the unnormalised maximally entangled vector) and the axis layout of
    `random_povm`.  Post-processing that is matrix algebra over ℂ is specified in `Toq/Spec/Rand.lean`.
 -/
